@@ -117,11 +117,12 @@ def grammar_check(ctx, cats, n_quick, n_thorough, opts, evals=EVALS, invs=None, 
         print("VIOLATION property=%s replay=%s" % (prop, models[e]["log"]))
         log("  the specification itself violates %s for E=%s" % (inv, e))
         nviol += 1
-    for f in tv["rejections"]:
-        nviol += vlib.report(prop, [f])
+    trace_cats = {"trace_status": {"C03"}, "trace_ticks": {"C02"}, "trace_pure": {"C16"}}
+    tmine = [f for f in tv["rejections"] if prop in trace_cats.get(f["cat"], {prop}) or f["cat"] == "trace_value"]
+    nviol += vlib.report(prop, tmine)
     cov = {"states": sum(r["distinct"] for r in models.values()), "transitions": sum(r["states"] for r in models.values()),
            "traces_validated_against_impl": sum_stats(all_stats, "calls") + tv["events"],
-           "behaviours_replayed": sum(r["beh"] for r in models.values()), "trace_events_validated_by_TLC": tv["events"],
+           "behaviours_replayed": sum(r["beh"] for r in models.values()), "trace_events_validated_by_TLC": tv["events"], "trace_decided": tv.get("totals", {}),
            "evaluations": sum_stats(all_stats, "calls"), "distinct_nontrivial": sum_stats(all_stats, "nontrivial"),
            "compared": sum_stats(all_stats, "compared"), "matched": sum_stats(all_stats, "matched"), "not_asserted": sum_stats(all_stats, "not_asserted"),
            "not_asserted_rules": merge_rules(all_stats),
@@ -141,9 +142,87 @@ def grammar_check(ctx, cats, n_quick, n_thorough, opts, evals=EVALS, invs=None, 
     return 1 if nviol else 0
 
 # ----------------------------------------------------------------------------------------------- direction B
-def trace_validate(ctx, event_files):
-    """Validate recorded calls against the specification (spec/CalcTrace.tla).  Placeholder until CalcTrace is wired."""
-    return {"events": 0, "rejections": []}
+TRACE_CFG = "INIT TInit\nNEXT TNext\nCHECK_DEADLOCK FALSE\nPOSTCONDITION Accepted\n"
+TRACE_JAVA = "-Xss1g -Dtlc2.tool.queue.IStateQueue=StateDeque"
+
+def _validate_chunk(args):
+    """One JVM: validate a chunk of events; on rejection drop the offending event and continue with the rest."""
+    name, lines = args
+    rejections, totals = [], {}
+    wd = vlib.ensure(os.path.join(WORK, "tlc", name))
+    for attempt in range(6):
+        tp = os.path.join(wd, "trace.ndjson")
+        with open(tp, "w") as f:
+            f.write("".join(lines))
+        r = vlib.tlc("CalcTrace", TRACE_CFG, name, workers=1, env={"TRACE": tp}, java_opts=TRACE_JAVA, timeout=1800)
+        acc = [p for p in r["prints"] if p.startswith('<<"TRACE-ACCEPTED"')]
+        rej = [p for p in r["prints"] if p.startswith('<<"TRACE-REJECTED"')]
+        if acc:
+            inner = acc[0][len('<<"TRACE-ACCEPTED", '):-2]
+            totals = json.loads(json.loads(inner))
+            break
+        if rej:
+            body = "[" + rej[0][2:-2] + "]"
+            try:
+                arr = json.loads(body)
+                d, ev, diag = arr[1], json.loads(arr[2]), json.loads(arr[3])
+            except Exception as e:
+                raise ToolError("cannot parse trace rejection: %s (%s)" % (rej[0][:300], e))
+            rejections.append({"index": d, "event": ev, "diag": diag})
+            del lines[d - 1]
+            continue
+        raise ToolError("trace validation produced neither acceptance nor rejection (log %s, error %s)" % (r["log"], r["error"]))
+    return {"totals": totals, "rejections": rejections, "n": len(lines)}
+
+def concrete_of(chars):
+    m = {"PI_SYM": "π", "LFLOOR": "⌊", "RFLOOR": "⌋", "LCEIL": "⌈", "RCEIL": "⌉", "DEG": "°", "WS": " ", "OTHER": "#"}
+    sup = "⁰¹²³⁴⁵⁶⁷⁸⁹"
+    out = []
+    for c in chars:
+        if c.startswith("SUP") and len(c) == 4:
+            out.append(sup[int(c[3])])
+        else:
+            out.append(m.get(c, c))
+    return "".join(out)
+
+def trace_validate(ctx, event_files, cap=40000, chunk=4000, par=8, reset_between_files=True):
+    """Direction B: validate recorded calls against the specification (spec/CalcTrace.tla)."""
+    lines = []
+    for fn in sorted(event_files):
+        p = fn if os.path.isabs(fn) else os.path.join(ctx.wd, fn)
+        if not os.path.exists(p):
+            continue
+        ls = [l for l in open(p, errors="replace") if l.strip()]
+        if ls and reset_between_files and lines:
+            lines.append('{"ev":"Reset"}\n')
+        lines += ls
+    if len(lines) > cap:
+        step = len(lines) / float(cap)
+        lines = [lines[int(i * step)] for i in range(cap)]
+    if not lines:
+        return {"events": 0, "rejections": [], "totals": {}}
+    chunks = [("%s_trace_%d" % (ctx.prop, i // chunk), lines[i:i + chunk]) for i in range(0, len(lines), chunk)]
+    t0 = time.time()
+    res = []
+    with cf.ThreadPoolExecutor(max_workers=par) as ex:
+        res = list(ex.map(_validate_chunk, chunks))
+    totals = {}
+    findings = []
+    for r in res:
+        for k, v in r["totals"].items():
+            totals[k] = totals.get(k, 0) + v
+        for rj in r["rejections"]:
+            ev, dg = rj["event"], rj["diag"]
+            failed = [k for k in ("claim", "status", "ticks", "value", "pure") if dg.get(k) is False]
+            if "claim" in failed:
+                raise ToolError("harness rendering does not lex to the claimed token kinds: %s -> %s" % (ev.get("chars"), dg.get("kinds")))
+            cat = "trace_" + (failed[0] if failed else "unknown")
+            findings.append({"cat": cat, "e": ev.get("e"), "input": concrete_of(ev.get("chars", [])), "chars": ev.get("chars"), "ph": json.dumps(ev.get("ph")),
+                             "expected": "spec verdict %s (%s), value %s" % (dg.get("verdict"), dg.get("rule"), dg.get("expected")),
+                             "actual": "%s %s, %s steps" % (ev.get("st"), ev.get("val"), ev.get("ticks")), "extra": {"diag": dg}})
+    n = sum(r["n"] for r in res)
+    log("trace validation: %d events in %d chunks, %.0fs; decided by the spec: %s; %d rejected" % (n, len(chunks), time.time() - t0, totals, len(findings)))
+    return {"events": n, "rejections": findings, "totals": totals}
 
 # ----------------------------------------------------------------------------------------------- checks
 def c01(ctx):
